@@ -347,7 +347,17 @@ func HarnessC18NoStateWitness() {
 		return
 	}
 	text1 := semanticWitness(rs, s, ai, cands[verif.Choice("cand", len(cands))])
-	text2 := c18Corpus[verif.Choice("second", len(c18Corpus))]
+	// the second statement: four representative corpus statements (a plain SELECT
+	// with binding subject and object, the SELECT with every tail clause, INSERT,
+	// CONSTRUCT) or, with ALL=1, the whole corpus
+	second := []int{0, 1, 2, 6}
+	if verif.Param("ALL", 0) == 1 {
+		second = nil
+		for i := range c18Corpus {
+			second = append(second, i)
+		}
+	}
+	text2 := c18Corpus[second[verif.Choice("second", len(second))]]
 	shared, err := grammar.NewParser(grammar.SemanticBQL())
 	verif.Assume(err == nil)
 	var st2 *semantic.Statement
